@@ -96,7 +96,10 @@ def gen_case(rng: random.Random, tier: str) -> dict:
              "inner_select": rng.random() < 0.25,  # runner.map on a graph that carries a default selection
              # the mapping node object is first configured differently and EXECUTED, then re-configured (map_over called again on that
              # very object) into the node under test: nothing of the earlier configuration may survive
-             "reconfigure": rng.random() < 0.25}
+             "reconfigure": rng.random() < 0.25,
+             # the list of the first mapped parameter is not supplied by the caller: it is the inner graph's own binding, or the
+             # signature default of the inner functions (mapping-node mode)
+             "mapped_source": rng.choice([None, None, None, "inner_bind", "inner_default"])}
     map_order = list(mapped)
     rng.shuffle(map_order)  # declared map_over order (the axis order of a product) need not be the signature order
     cfgs = []
@@ -213,6 +216,19 @@ def _inner_spec(doc: dict, *, for_runner_map: bool = False) -> dict:
         bc = [b for b in inner["bc"] if b in used]
         if bc:
             spec = dict(spec, bind={bc[0]: list(doc["broadcast"][bc[0]])})
+    src = doc["outer"].get("mapped_source")
+    if src and not for_runner_map and doc["via"] == "node":
+        m0 = inner["mapped"][0]
+        lst = list(doc["lists"][m0])
+        if src == "inner_bind":
+            spec = dict(spec, bind=dict(spec.get("bind") or {}, **{m0: lst}))
+        else:
+            nodes = copy.deepcopy(spec["nodes"])
+            for nd in nodes:
+                for q in nd.get("params", []):
+                    if q["name"] == m0:
+                        q["default"] = list(lst)
+            spec = dict(spec, nodes=nodes)
     if for_runner_map and doc["outer"].get("inner_select"):
         outs = [o for nd in inner["nodes"] if nd["kind"] == "fn" for o in nd["outs"]]
         if outs:
@@ -276,6 +292,9 @@ def run_case(doc: dict) -> dict:
             else:
                 ospec, rin, rout = _outer_spec(doc)
                 vals = {**{rin.get(b, b): v for b, v in bvals.items()}, **{rin.get(m, m): list(doc["lists"][m]) for m in mapped}}
+                if doc["outer"].get("mapped_source"):
+                    vals.pop(rin.get(mapped[0], mapped[0]), None)  # not supplied: comes from the inner binding / default
+                    res["stats"]["mapped_list_from_inner_binding_or_default"] = 1
                 if doc["outer"].get("reconfigure") and not faults and not doc["outer"].get("rename_after_map") and ospec["nodes"][0].get("map_over"):
                     w = _run_reconfigured(ospec, vals, label, cfg)
                     res["stats"]["mapping_node_reconfigured_after_use"] = res["stats"].get("mapping_node_reconfigured_after_use", 0) + 1
